@@ -445,9 +445,20 @@ func c02History(c *fw.Ctx, idx int) {
 				}
 				continue
 			}
-			hist = append(hist, name+" = "+name+".Clone()")
+			// the other tracked geometry becomes a clone of this one; both go on being
+			// pushed to, so storage a shallow clone would share gets written from both sides
+			other := b
+			oname := "B"
+			if cur == b {
+				other, oname = a, "A"
+			}
+			hist = append(hist, oname+" = "+name+".Clone()")
 			setIn()
-			if c.Guard("panic", func() { cur.clone() }) {
+			if c.Guard("panic", func() {
+				cl := &tracked{kind: cur.kind, t: cur.t, m: cur.m.Clone()}
+				cl.clone()
+				*other = *cl
+			}) {
 				return
 			}
 			c.Count("op_clone")
@@ -456,6 +467,13 @@ func c02History(c *fw.Ctx, idx int) {
 			setIn()
 		}
 		if !cur.sweep(c, "after "+hist[len(hist)-1]) {
+			return
+		}
+		oth := b
+		if cur == b {
+			oth = a
+		}
+		if !oth.sweep(c, "after "+hist[len(hist)-1]+" (the other tracked geometry)") {
 			return
 		}
 	}
